@@ -205,6 +205,11 @@ func nary(op string, unit, zero *Term, args []*Term) *Term {
 			return zero
 		}
 	}
+	if len(out) > 1 && len(out) <= 64 {
+		if r, changed := propagate(op, unit, zero, out, seen); changed {
+			return r
+		}
+	}
 	if len(out) == 0 {
 		return unit
 	}
@@ -212,6 +217,147 @@ func nary(op string, unit, zero *Term, args []*Term) *Term {
 		return out[0]
 	}
 	return intern(&Term{Op: op, Args: out, S: BoolS})
+}
+
+func negOf(t *Term) *Term {
+	if t.Op == "not" {
+		return t.Args[0]
+	}
+	return nil
+}
+
+// propagate: unit propagation of the top-level literals into nested or/and arguments, and
+// merging of complementary disjuncts/conjuncts ((A&B)|(A&!B) = A).
+func propagate(op string, unit, zero *Term, out []*Term, top map[int]bool) (*Term, bool) {
+	dual := "or"
+	if op == "or" {
+		dual = "and"
+	}
+	isTop := func(t *Term) bool { return top[t.id] }
+	// under "and": a literal l in top is true; under "or": a literal in top is false (we are in the case where all top are false)
+	// so for "and": inside nested Or(ys): y in top -> Or true (drop arg); not(y) with y in top, or y=not(l) with l in top -> y false (drop y)
+	// for "or": inside nested And(ys): y in top -> y false -> And false (drop arg); negation of a top member -> true (drop y)
+	changed := false
+	var res []*Term
+	for _, a := range out {
+		var ys []*Term
+		neg := false
+		switch {
+		case a.Op == dual:
+			ys = a.Args
+		case a.Op == "not" && a.Args[0].Op == op:
+			// not(and(ys)) under and  ==  or(not ys);  not(or(ys)) under or == and(not ys)
+			ys = a.Args[0].Args
+			neg = true
+		default:
+			res = append(res, a)
+			continue
+		}
+		var keep []*Term
+		dropArg := false
+		mod := false
+		for _, y := range ys {
+			lit := y
+			if neg {
+				lit = Not(y)
+			}
+			// lit is a member of the nested dual
+			if isTop(lit) {
+				// and: Or(...true...) = true -> arg is unit ; or: And(...false...) = false -> arg is unit
+				dropArg = true
+				break
+			}
+			nl := Not(lit)
+			if isTop(nl) {
+				mod = true // literal evaluates to the dual's unit: drop it
+				continue
+			}
+			keep = append(keep, lit)
+		}
+		if dropArg {
+			changed = true
+			continue
+		}
+		if !mod {
+			res = append(res, a)
+			continue
+		}
+		changed = true
+		var na *Term
+		if dual == "or" {
+			na = Or(keep...)
+		} else {
+			na = And(keep...)
+		}
+		res = append(res, na)
+	}
+	if changed {
+		if op == "and" {
+			return And(res...), true
+		}
+		return Or(res...), true
+	}
+	// complementary merge: (X & c) op' (X & !c)
+	if len(out) <= 24 {
+		for i := 0; i < len(out); i++ {
+			for j := i + 1; j < len(out); j++ {
+				if m := mergeCompl(dual, out[i], out[j]); m != nil {
+					var r2 []*Term
+					for k, t := range out {
+						if k != i && k != j {
+							r2 = append(r2, t)
+						}
+					}
+					r2 = append(r2, m)
+					if op == "and" {
+						return And(r2...), true
+					}
+					return Or(r2...), true
+				}
+			}
+		}
+	}
+	return nil, false
+}
+
+func elems(dual string, t *Term) []*Term {
+	if t.Op == dual {
+		return t.Args
+	}
+	return []*Term{t}
+}
+
+func mergeCompl(dual string, a, b *Term) *Term {
+	ea, eb := elems(dual, a), elems(dual, b)
+	if len(ea) != len(eb) {
+		return nil
+	}
+	inB := map[int]bool{}
+	for _, t := range eb {
+		inB[t.id] = true
+	}
+	var da *Term
+	var common []*Term
+	for _, t := range ea {
+		if inB[t.id] {
+			common = append(common, t)
+		} else if da == nil {
+			da = t
+		} else {
+			return nil
+		}
+	}
+	if da == nil {
+		return nil
+	}
+	nd := Not(da)
+	if !inB[nd.id] {
+		return nil
+	}
+	if dual == "and" {
+		return And(common...)
+	}
+	return Or(common...)
 }
 
 func And(args ...*Term) *Term { return nary("and", True(), False(), args) }
